@@ -1189,6 +1189,7 @@ PRIMS = {
     ("str", "strip"): ("py_strip", "str", 0), ("str", "rstrip"): ("py_rstrip", "str", 0),
     ("str", "startswith"): ("py_startswith", "bool", 1), ("str", "replace"): ("py_replace1", "str", 2),
     ("str", "ljust"): ("py_ljust", "str", 1),
+    ("str", "upper"): ("upper", "str", 0),          # str.upper: a function parameter (UPPER) of the translated method
     ("states", "symbols_as_string"): ("py_symbols_as_string alpha", "str", 0),
     ("wdict", "values"): ("wdict_values", "strs", 0),
     ("str", "len"): "py_len_str", ("strs", "len"): "len", ("states", "len"): "len", ("wmatrix", "len"): "wm_len",
@@ -1249,6 +1250,7 @@ def check_helpers(tree):
 # --------------------------------------------------------------------------------------------
 ALPHA = ("alpha", "alphabet")
 LOWER = ("lower", "text -> text")
+UPPER = ("upper", "text -> text")
 
 PLAN = [
     Spec("fastawriter.py", "FastaWriter", "_write_char_matrix",
@@ -1317,7 +1319,7 @@ PLAN = [
                 "self.preserve_spaces": "bool", "self.unquoted_underscores": "bool", "block.label": "opt:str"},
          state={"self._title_block_map": "tdict", "self._block_title_map": "wdict"},
          locals_={"title": "str", "idx": "int", "original_title": "str", "raw_title": "str"},
-         ret="opt:str", out_name="NexusWriter_get_block_title"),
+         ret="opt:str", out_name="NexusWriter_get_block_title", extra_params=[UPPER]),
 ]
 
 
